@@ -232,6 +232,7 @@ def execute(sc, ctx) -> None:
         for p in finals:
             if slurp(p) != finals[p]:
                 raise mk("not-complete-at-return", f"{ctx.rel(p)} changed after the call returned (close/GC wrote more)")
+    writes = list(writes)
     K = len(writes)
     if K >= 4:
         ctx.probe("K>=4")
@@ -242,6 +243,33 @@ def execute(sc, ctx) -> None:
             filgen.parse_header(b)
         except filgen.HeaderError as e:
             raise mk("final-file-header-malformed", f"{ctx.rel(p)}: {e}") from None
+
+    # ---------------- (1b) the same call into a directory where every output path ALREADY EXISTS with
+    # longer, unrelated content (a re-run into the same directory): the snapshot invariants must hold
+    # unchanged - in particular the first write must leave exactly one complete header (no stale tail)
+    # and the file at return must equal the golden one.
+    dirty_dir = os.path.join(ctx.root, "dirty")
+    os.mkdir(dirty_dir)
+    for base, fin in final_by_name.items():
+        with open(os.path.join(dirty_dir, base), "wb") as fp:
+            fp.write(bytes([0xEE]) * (len(fin) + 37))
+    snaps.clear()
+    del writes[:]
+    mk = mk_for("pre-existing-output")
+    with SimDisk(ctx, []) as sim:
+        sim.write_hook = hook
+        sim.begin_op(0, budget=100000)
+        reader = FilReader(fs.paths)
+        try:
+            invoke(name, reader, dirty_dir, sc)
+        except SimLivelock as e:
+            raise mk("livelock", str(e)) from None
+        del reader
+        for p in list_outputs(dirty_dir):
+            if slurp(p) != final_by_name.get(os.path.basename(p)):
+                raise mk("stale-content-survives", f"{ctx.rel(p)}: output written over an existing file differs from the output written into a fresh directory")
+    ctx.probe("pre-existing-output-run")
+    shutil.rmtree(dirty_dir, ignore_errors=True)
 
     # ---------------- (2) enumerate fault points
     def rerun(fault, point):
